@@ -206,7 +206,9 @@ def run_rt_env(lines, no_color, tty, cwd=None, extra_env=None):
     return p.stdout.decode().splitlines()
 
 
-HISTS = ["-", "N", "NN", "NND", "NNF", "ND", "NDN", "NNDD", "NNNDF"]
+# N = new guard, D = drop the newest, F = drop the oldest; X = ANOTHER thread (no guard) formats a report of its own at that moment, Y = another
+# thread does so under a guard of its own: what other threads do between this thread's guard operations and its report is not its business
+HISTS = ["-", "N", "NN", "NND", "NNF", "ND", "NDN", "NNDD", "NNNDF", "X", "NX", "XN", "NXD", "NNXD", "NDX", "Y", "NY", "YN", "NXNDX", "XYX", "NYX"]
 
 
 def colour_stream(res):
@@ -227,7 +229,8 @@ def colour_stream(res):
                     msgs[case] = m
                     impl.append("styled=%d" % (ANSI.search(m) is not None))
                     # the fallback listing (unreadable source) never carries escapes
-                    model_req.append("styled\t%s\t%d\t%d" % (g, no_color, tty) if f == "a.rs" else None)
+                    own = g.replace("X", "").replace("Y", "") or "-"       # the model's counter is per thread: other threads' reports are no input of it
+                    model_req.append("styled\t%s\t%d\t%d" % (own, no_color, tty) if f == "a.rs" else None)
     model_raw = vlib.run_model([r for r in model_req if r])
     it = iter(model_raw)
     model = ["styled=%s" % next(it) if r else "styled=0" for r in model_req]
